@@ -272,6 +272,11 @@ class MemFinder(object):
         exec(compile(self.sources[module.__name__], module.__file__, 'exec'), module.__dict__)
 
 
+MARKS = {'ff-line': '\x0c', 'ff-comment': '# ---- next section \x0c ----', 'vt-string': "_vt = 'a\x0bb'",
+         'nel-comment': '# caf\x85 au lait', 'ls-string': "_ls = 'line\u2028separator \u2029'", 'fs-comment': '# \x1c\x1d\x1e',
+         'ff-indent': '\x0c# page'}
+
+
 def build_module(c):
     """Write a module whose run() raises through the requested chain; returns module name."""
     _pkg_n[0] += 1
@@ -334,6 +339,16 @@ def build_module(c):
                     '    exec("def dyn(x):\\n    return prev(x)\\nresult = dyn(x)", ns)', '    return ns["result"]', '']
         prev = fn
     src += ['def run():', '    return %s(0)' % prev, '']
+    if c.get('marks'):
+        # characters that str.splitlines() treats as line boundaries but Python source (and the traceback module) do
+        # not: a form feed page break between sections, control / separator characters in comments and strings
+        mark = MARKS[c['marks']]
+        out_ = []
+        for ln_ in src:
+            out_.append(ln_)
+            if ln_ == '':
+                out_.append(mark)
+        src = out_[:2] + [mark] + out_[2:]
     if c.get('at_import'):
         src += ['run()    # the module fails while it is being imported', '']
     if c.get('mem'):
@@ -522,6 +537,8 @@ def check_live(c, st):
             st.count('live_text_parses')
         st.see(('live', tuple(c['chain']), c['exc'], c['msg']))
         st.count('live_cases')
+        if c.get('marks'):
+            st.count('live_cases_source_with_' + c['marks'])
         st.peak('max_chain_depth', len(c['chain']))
         return None
     finally:
@@ -551,6 +568,9 @@ def gen_live(r):
         c['cold'] = 'warm-first'        # edit-and-rerun with boltons looking at the new file before anybody else does
     if not c.get('mem') and not c.get('rerun') and r.random() < 0.25:
         c['odd_path'] = r.choice(['dotdot', 'dot', 'slashes'])      # found through an un-normalised sys.path entry
+    pick = (len(chain) * 7 + len(c['exc']) + len(c['msg']) * 3 + len(c)) % 21
+    if pick < len(MARKS) and not c.get('mem'):
+        c['marks'] = sorted(MARKS)[pick]
     return c
 
 
